@@ -12,6 +12,29 @@ from . import rule
 from .common import is_raise_of, method_calls
 
 
+def _run_lens(stmts, lens, is_target=None):
+    """abstractly run a statement list whose branch conditions are len() guards:
+    returns ('return', node) / ('reject', node) / ('target', node) / ('unknown', node) / ('end', None)"""
+    for st in stmts:
+        if is_target is not None and is_target(st):
+            return "target", st
+        if isinstance(st, ast.If):
+            v = eval_len_test(st.test, lens)
+            if v is None:
+                return "unknown", st
+            r = _run_lens(st.body if v else st.orelse, lens, is_target)
+            if r[0] != "end":
+                return r
+            continue
+        if isinstance(st, ast.Return):
+            return "return", st
+        if isinstance(st, ast.Raise):
+            return "reject", st
+        if isinstance(st, ast.Assert) and isinstance(st.test, ast.Constant) and not st.test.value:
+            return "reject", st
+    return "end", None
+
+
 @rule("TOTAL-1", 16, "the case analysis of join_tails_and_exits covers every combination of one-or-more tails and exits")
 def total1(ctx) -> List[Ob]:
     out: List[Ob] = []
@@ -27,32 +50,15 @@ def total1(ctx) -> List[Ob]:
             lens = {params[0]: lt, params[1]: le}
             name = lambda v: f"{v}+" if v == 4 else str(v)  # noqa: E731
             key = f"len({params[0]})={name(lt)}, len({params[1]})={name(le)}"
-            verdict = None
-            for st in body:
-                if isinstance(st, ast.If):
-                    v = eval_len_test(st.test, lens)
-                    if v is None:
-                        verdict = ("unresolved", f"guard '{A.unparse(st.test)}' cannot be evaluated on length classes", st)
-                        break
-                    if v:
-                        ends = st.body[-1] if st.body else None
-                        if isinstance(ends, ast.Return):
-                            verdict = ("ok", f"handled by 'if {A.unparse(st.test)}'", st)
-                        elif isinstance(ends, ast.Raise) or (isinstance(ends, ast.Assert)):
-                            verdict = ("bad", f"case is rejected by 'if {A.unparse(st.test)}'", st)
-                        else:
-                            continue
-                        break
-                elif isinstance(st, ast.Assert) and isinstance(st.test, ast.Constant) and not st.test.value:
-                    verdict = ("bad", "falls through every case to 'assert False'", st)
-                    break
-                elif isinstance(st, ast.Raise):
-                    verdict = ("bad", "falls through every case to a raise", st)
-                    break
-                elif isinstance(st, ast.Return):
-                    verdict = ("ok", "default return", st)
-                    break
-            if verdict is None:
+            kind_, node_ = _run_lens(body, lens)
+            if kind_ == "return":
+                guard = next((a for a in A.ancestors(node_) if isinstance(a, ast.If)), None)
+                verdict = ("ok", f"handled by 'if {A.unparse(guard.test)}'" if guard is not None else "default return", node_)
+            elif kind_ == "reject":
+                verdict = ("bad", f"falls through every case to '{A.unparse(node_)[:40]}'", node_)
+            elif kind_ == "unknown":
+                verdict = ("unresolved", f"guard '{A.unparse(node_.test)}' cannot be evaluated on length classes", node_)
+            else:
                 verdict = ("bad", "no case returns", fn.node)
             k, msg, node = verdict
             where = ctx.where(fn, node)
@@ -75,17 +81,17 @@ def total2(ctx) -> List[Ob]:
     if not muts:
         raise AnalysisError("join_returns: no insertion found")
     c = muts[0]
-    guards = [a for a in A.ancestors(c) if isinstance(a, ast.If)]
-    # the list whose length is tested
+    body = A.body_without_docstring(fn.node)
+    stmt_c = A.enclosing_stmt(c)
+    lst = None
+    for x in A.walk_no_nested(fn.node):
+        if isinstance(x, ast.Call) and isinstance(x.func, ast.Name) and x.func.id == "len" and x.args and isinstance(x.args[0], ast.Name):
+            lst = x.args[0].id
     for n in LEN_CLASSES:
         key = f"{n if n < 4 else '4+'} exit block(s)"
         where = ctx.where(fn, c)
-        if not guards:
-            v: Optional[bool] = True
-        else:
-            g = guards[0]
-            names = [x.id for x in ast.walk(g.test) if isinstance(x, ast.Name) and x.id != "len"]
-            v = eval_len_test(g.test, {nm: n for nm in names})
+        kind_, node_ = _run_lens(body, {lst: n} if lst else {}, is_target=lambda st: st is stmt_c or any(a is st for a in A.ancestors(stmt_c)) and not isinstance(st, ast.If))
+        v = True if kind_ == "target" else (None if kind_ == "unknown" else False)
         want = n >= 2
         if v is None:
             out.append(unresolved("TOTAL-2", fn.qualname, key, where, "guard of the insertion cannot be evaluated"))
@@ -253,9 +259,13 @@ def total5(ctx) -> List[Ob]:
     if fn is None:
         raise AnalysisError("SCFG.join_tails_and_exits not found")
     tails, exits = [p.arg for p in fn.params if p.arg != "self"]
-    for st in A.body_without_docstring(fn.node):
-        if not isinstance(st, ast.If):
-            continue
+    cases = []
+    for st0 in A.body_without_docstring(fn.node):
+        cur = st0
+        while isinstance(cur, ast.If):
+            cases.append(cur)
+            cur = cur.orelse[0] if len(cur.orelse) == 1 and isinstance(cur.orelse[0], ast.If) else None
+    for st in cases:
         rets = [r for r in st.body if isinstance(r, ast.Return)]
         if not rets or not isinstance(rets[-1].value, ast.Tuple) or len(rets[-1].value.elts) != 2:
             continue
@@ -350,4 +360,102 @@ def total6(ctx) -> List[Ob]:
                 out.append(bad("TOTAL-6", fn.qualname, key, where, "; ".join(probs) + ": blocks reachable through the abandoned items are never visited"))
             else:
                 out.append(ok("TOTAL-6", fn.qualname, key, where, f"{work} is drained completely unless a positive answer is found"))
+    return out
+
+
+@rule("ITER-1", 8, "the hierarchy iterator and the region-concealing view are head-seeded FIFO work-lists with a visited gate; every item in the graph is yielded once after the gate; regions continue at their exiting block's targets")
+def iter1(ctx) -> List[Ob]:
+    out: List[Ob] = []
+    prog = ctx.prog
+    targets = []
+    it = prog.cls("SCFG").methods.get("__iter__")
+    rv = prog.cls("ConcealedRegionView").methods.get("region_view_iterator")
+    if it is None or rv is None:
+        raise AnalysisError("SCFG.__iter__ / ConcealedRegionView.region_view_iterator not found")
+    for fn, concealed in ((it, False), (rv, True)):
+        cfg = ctx.cfg(fn)
+        loops = [w for w in A.walk_no_nested(fn.node) if isinstance(w, ast.While) and isinstance(w.test, ast.Name)]
+        if not loops:
+            out.append(unresolved("ITER-1", fn.qualname, "work-list loop", ctx.where(fn), "no `while <work-list>:` loop found"))
+            continue
+        w = loops[0]
+        work = w.test.id
+        wn = cfg.node_of(w)
+        # (1) seeded with the head
+        key = "seeded with the head"
+        seeds = []
+        for d in cfg.reaching_defs(w, work):
+            ap = None
+            if d.stmt is not None and isinstance(d.stmt, (ast.Assign, ast.AnnAssign)):
+                ap = d.stmt.value
+            if ap is not None and not any(a is w for a in A.ancestors(d.stmt)):
+                seeds.append(A.unparse(ap))
+        if seeds and all("find_head()" in s_ or "['0']" in s_ or "head" in s_ for s_ in seeds) and any("find_head()" in s_ for s_ in seeds):
+            out.append(ok("ITER-1", fn.qualname, key, ctx.where(fn, w), f"work-list starts from {seeds[0][:60]}"))
+        else:
+            out.append(bad("ITER-1", fn.qualname, key, ctx.where(fn, w), f"the walk does not start from the head of the graph ({seeds[:1]}): items are missed or come before their predecessors"))
+        # (2) FIFO
+        key = "first-in first-out"
+        pops = [c for c in A.walk_no_nested(ast.Module(w.body, [])) if isinstance(c, ast.Call) and isinstance(c.func, ast.Attribute) and A.unparse(c.func.value) == work and c.func.attr in ("pop", "popleft")]
+        pushes = [c for c in A.walk_no_nested(ast.Module(w.body, [])) if isinstance(c, ast.Call) and isinstance(c.func, ast.Attribute) and A.unparse(c.func.value) == work and c.func.attr in ("extend", "append", "appendleft", "extendleft", "insert")]
+        fifo_pop = pops and all(c.func.attr == "popleft" or (c.args and isinstance(c.args[0], ast.Constant) and c.args[0].value == 0) for c in pops)
+        fifo_push = pushes and all(c.func.attr in ("extend", "append") for c in pushes)
+        if fifo_pop and fifo_push:
+            out.append(ok("ITER-1", fn.qualname, key, ctx.where(fn, pops[0]), "pops at the front, extends at the back (breadth first: an item comes after one of its predecessors)"))
+        else:
+            out.append(bad("ITER-1", fn.qualname, key, ctx.where(fn, w), "the work-list is not used first-in first-out: the documented breadth-first order (head first, predecessors before successors) is lost"))
+        # (3) visited gate before the yield; yield on every path for names in the graph
+        popped = None
+        for s_ in A.walk_no_nested(ast.Module(w.body, [])):
+            if isinstance(s_, ast.Assign) and s_.value in pops and isinstance(s_.targets[0], ast.Name):
+                popped = s_.targets[0].id
+        yields = [y for y in A.walk_no_nested(ast.Module(w.body, [])) if isinstance(y, ast.Yield)]
+        gates = [g for g in A.walk_no_nested(ast.Module(w.body, [])) if isinstance(g, ast.If) and isinstance(g.test, ast.Compare) and isinstance(g.test.ops[0], ast.In) and popped and A.unparse(g.test.left) == popped and g.body and isinstance(g.body[-1], ast.Continue)]
+        key = "visited gate and single yield"
+        probs = []
+        if not popped or not yields:
+            probs.append("no yield of the popped name found")
+        elif not gates:
+            probs.append("no `if <name> in <seen>: continue` gate: items reachable along two paths are yielded twice")
+        else:
+            g = gates[0]
+            seen = A.unparse(g.test.comparators[0])
+            adds = [c for c in A.walk_no_nested(ast.Module(w.body, [])) if isinstance(c, ast.Call) and isinstance(c.func, ast.Attribute) and A.unparse(c.func.value) == seen and c.func.attr in ("add", "append") and c.args and A.unparse(c.args[0]) == popped]
+            gn = cfg.node_of(g)
+            if not adds:
+                probs.append(f"{popped} is never recorded in {seen}")
+            else:
+                an = cfg.node_of(adds[0])
+                for y in yields:
+                    yn = cfg.node_of(y)
+                    if not (cfg.dominates(gn, yn) and cfg.dominates(an, yn)):
+                        probs.append(f"the yield at line {A.lineno(y)} is not preceded by the visited gate and the recording of {popped}")
+                if len([y for y in yields]) != 1:
+                    probs.append(f"{len(yields)} yields of single items in one iteration")
+                # what is yielded is the popped name (and its block)
+                if yields and popped not in A.names_in(yields[0].value):
+                    probs.append("the yielded value is not the popped name")
+        if probs:
+            out.append(bad("ITER-1", fn.qualname, key, ctx.where(fn, w), "; ".join(probs)))
+        else:
+            out.append(ok("ITER-1", fn.qualname, key, ctx.where(fn, w), f"each popped name passes `in {seen}` -> continue, is recorded, and is yielded once"))
+        # (4) successors
+        key = "continuation of an item"
+        ext_args = [A.unparse(c.args[0]) for c in pushes if c.args]
+        if concealed:
+            want_region = [a for a in ext_args if ".subregion[" in a and ".exiting]" in a and a.endswith(".jump_targets")]
+            want_plain = [a for a in ext_args if a.endswith(".jump_targets") and ".subregion" not in a]
+            if want_region and want_plain and len(ext_args) == 2:
+                out.append(ok("ITER-1", fn.qualname, key, ctx.where(fn, w), f"region: {want_region[0]}; block: {want_plain[0]}"))
+            else:
+                out.append(bad("ITER-1", fn.qualname, key, ctx.where(fn, w), f"the view continues at {ext_args}: a region must continue at its exiting block's targets and a block at its own"))
+        else:
+            yf = [y for y in A.walk_no_nested(ast.Module(w.body, [])) if isinstance(y, ast.YieldFrom)]
+            rec = [y for y in yf if ".subregion" in A.unparse(y.value)]
+            plain = [a for a in ext_args if a.endswith(".jump_targets") and ".subregion" not in a]
+            if rec and plain and len(ext_args) == 1:
+                # the recursion is guarded by a region test and comes after the region itself was yielded
+                out.append(ok("ITER-1", fn.qualname, key, ctx.where(fn, w), f"a region is followed by everything inside it ({A.unparse(rec[0])}), then its targets ({plain[0]})"))
+            else:
+                out.append(bad("ITER-1", fn.qualname, key, ctx.where(fn, w), f"the hierarchy walk does not descend into regions (yield from <region>.subregion) or does not continue at the block's jump targets ({ext_args})"))
     return out
